@@ -1,3 +1,4 @@
+import Ntrip.Guards.FramingConsts
 import Ntrip.Properties.C12
 import Ntrip.Generated.Consts
 import Ntrip.Generated.Layouts
@@ -16,5 +17,8 @@ namespace Ntrip.C12
 
 /-- Tie T1: guards and loop headers of the modelled code, regenerated from the source. -/
 theorem tie_guards_framing : type_of% Ntrip.Guards.framing := Ntrip.Guards.framing
+
+/-- Tie T1 (constants): the literals of the framing model are the constants of the source. -/
+theorem tie_framing_consts : type_of% Ntrip.Guards.framing_consts := Ntrip.Guards.framing_consts
 
 end Ntrip.C12
